@@ -8,13 +8,13 @@ import (
 	"errors"
 	"fmt"
 	"io"
-	"os"
 	"os/exec"
 	"path/filepath"
 	"sort"
 	"strconv"
 	"strings"
 	"sync"
+	"time"
 )
 
 // ErrNoNode is returned when no suitable Node runtime exists (infrastructure, exit 2).
@@ -81,7 +81,7 @@ func Start(script string, extraArgs ...string) (*Driver, error) {
 	}
 	args := append([]string{"--no-warnings", script}, extraArgs...)
 	cmd := exec.Command(node, args...)
-	cmd.Stderr = os.Stderr
+	cmd.Stderr = nil // never inherit the parent's pipes: an orphaned helper would keep them open
 	in, err := cmd.StdinPipe()
 	if err != nil {
 		return nil, err
@@ -123,9 +123,25 @@ func (d *Driver) Call(cmd map[string]any) (Reply, error) {
 	if _, err := d.in.Write(append(b, '\n')); err != nil {
 		return nil, err
 	}
-	line, err := d.out.ReadBytes('\n')
-	if err != nil {
-		return nil, fmt.Errorf("node driver died: %w", err)
+	type rd struct {
+		line []byte
+		err  error
+	}
+	ch := make(chan rd, 1)
+	go func() {
+		l, e := d.out.ReadBytes('\n')
+		ch <- rd{l, e}
+	}()
+	var line []byte
+	select {
+	case r := <-ch:
+		if r.err != nil {
+			return nil, fmt.Errorf("node driver died: %w", r.err)
+		}
+		line = r.line
+	case <-time.After(90 * time.Second):
+		_ = d.cmd.Process.Kill()
+		return nil, fmt.Errorf("node driver did not answer %v within 90 s", cmd["op"])
 	}
 	var r Reply
 	dec := json.NewDecoder(strings.NewReader(string(line)))
